@@ -18,6 +18,8 @@ def replay(ob):
         return HEAD + "main(['ovr_minmax'])\n"
     if "ScatterAllStatic.fires_only_without_a_reduction" in n:
         return HEAD + "main(['scatter_reduction'])\n"
+    if "HardSwishFusionFromHardSigmoid" in n:
+        return HEAD + "main(['hardswish_tolerance'])\n"
     if "FuseBatchNorm" in n:
         return HEAD + "main(['batchnorm'])\n"
     if "FuseSuccessiveClip." in n and "raises" not in n:
